@@ -226,7 +226,7 @@ func runList(in listIn, forCoq bool) (obs listObs, oracle string) {
 			probe[i] = true
 		}
 	} else {
-		for _, b := range []int{0, 1, 127, 128, 129, 255, 256, 257, 32767, 32768, 32769, n - 2, n - 1} {
+		for _, b := range []int{0, 1, 127, 128, 129, 255, 256, 257, 32767, 32768, 32769, 65535, 65536, 65537, n - 2, n - 1} {
 			if b >= 0 && b < n {
 				probe[b] = true
 			}
@@ -359,7 +359,7 @@ func gen(c *hxlib.Ctx) {
 	}
 	sizes := []int{0, 1, 2, 16, 17, 127, 128, 129, 255, 256, 257, 1000}
 	if c.Tier == "thorough" {
-		sizes = append(sizes, 32767, 32768, 32769)
+		sizes = append(sizes, 32767, 32768, 32769, 65535, 65536, 65537, 65600)
 	}
 	for j := 0; j < 4; j++ {
 		sizes = append(sizes, 3+r.Intn(120))
@@ -376,6 +376,13 @@ func gen(c *hxlib.Ctx) {
 			listCases = append(listCases, hxlib.Case{Kind: kind + "-list", Coq: coq, Input: map[string]interface{}{"t": "list", "v": in},
 				Nontrivial: n >= 2, OracleErr: msg, Key: fmt.Sprintf("%s/%d/%d", kind, n, in.Seed)})
 		}
+	}
+	// one list beyond the 16-bit index range in every tier (direct oracle only)
+	if c.Tier != "thorough" {
+		in := listIn{Kind: "receipt", N: 65537, Seed: r.Int63()}
+		_, msg := safeList(in, false)
+		listCases = append(listCases, hxlib.Case{Kind: "receipt-list", Input: map[string]interface{}{"t": "list", "v": in},
+			Nontrivial: true, OracleErr: msg, Key: fmt.Sprintf("receipt/65537/%d", in.Seed)})
 	}
 	// interleave, so that the large list cases spread over the Coq shards
 	step := len(keyCases)/(len(listCases)+1) + 1
@@ -426,7 +433,7 @@ func replay(raw json.RawMessage) string {
 func main() {
 	hxlib.Main(hxlib.Spec{
 		ID:       "C22",
-		Rule:     "index keys of 0..299, of 2^(8k-1)-2..+1 and 2^(8k)-1..+1 for every byte length, and random values of every bit length (key bytes and decoded index compared with the model); transaction lists and receipt lists of sizes 0,1,2,16,17,127,128,129,255,256,257,1000 (thorough: 32767,32768,32769) and four random sizes: iteration order and index, Get(i), reload from hash, root against an independently keyed byte trie; transaction lists up to 130 items except 127 and 128 (receipt lists: all up to 257) are also replayed on the model with their root hash; non-trivial = index >= 128 or list of at least two items; distinct = distinct Coq case / list seed",
+		Rule:     "index keys of 0..299, of 2^(8k-1)-2..+1 and 2^(8k)-1..+1 for every byte length, and random values of every bit length (key bytes and decoded index compared with the model); transaction lists and receipt lists of sizes 0,1,2,16,17,127,128,129,255,256,257,1000, one receipt list of 65537 items (thorough: 32767,32768,32769,65535,65536,65537,65600 for both kinds) and four random sizes: iteration order and index, Get(i), reload from hash, root against an independently keyed byte trie; transaction lists up to 130 items except 127 and 128 (receipt lists: all up to 257) are also replayed on the model with their root hash; non-trivial = index >= 128 or list of at least two items; distinct = distinct Coq case / list seed",
 		Shard:    40,
 		Preamble: tl.Preamble("C22"),
 		Gen:      gen, Replay: replay,
